@@ -239,7 +239,10 @@ def run(
     e["OUT_FILE"] = out_file
     if env:
         e.update({k: str(v) for k, v in env.items()})
-    jopts = []
+    # TLC creates an (empty) tlc-* directory in java.io.tmpdir on every start: keep it inside the scratch directory
+    # of the run instead of /tmp
+    os.makedirs(os.path.join(run_dir, "tmp"), exist_ok=True)
+    jopts = ["-Djava.io.tmpdir=" + os.path.join(run_dir, "tmp")]
     if dfs:
         jopts.append("-Dtlc2.tool.queue.IStateQueue=StateDeque")
     cmd = _java_cmd(jopts) + [
